@@ -906,7 +906,11 @@ func c13R4(p *Prog, r *Report) {
 		case !unfolds:
 			r.OK(site, pos, "(a) structural recursion: no member calls Underlying(), so each step descends into a strictly smaller part of a finite type expression")
 		case hasVisited:
-			r.OK(site, pos, "(b) unfolds named types under a visited set map[*types.Named]… that is both consulted and extended")
+			if bad := visitedSetThreaded(members); bad != "" {
+				r.Bad(site, pos, "the cycle unfolds named types under a visited set, but "+bad+": the bookkeeping restarts inside the cycle, so a type that reaches itself on that route (e.g. `type Trie [26]*Trie`) recurses until the stack overflows")
+			} else {
+				r.OK(site, pos, "(b) unfolds named types under a visited set map[*types.Named]… that is consulted, extended and handed unchanged to every call inside the cycle")
+			}
 		case len(comp) == 1 && ssaName(nodes[comp[0]]) == "xtype.ZeroValue":
 			if bad := zeroValueSingleStep(p); bad != "" {
 				r.Bad(site, pos, bad)
@@ -917,6 +921,57 @@ func c13R4(p *Prog, r *Report) {
 			r.Bad(site, pos, "the cycle unfolds named types (calls Underlying()) without consulting a visited set: a recursive type such as `type T map[string]T` recurses without bound")
 		}
 	}
+}
+
+// visitedSetThreaded: every member of the cycle has a map[*types.Named]… parameter and every call from one member to
+// another passes the caller's own parameter in that position (a fresh or different map restarts the bookkeeping).
+func visitedSetThreaded(members map[*ssa.Function]bool) string {
+	setParam := func(fn *ssa.Function) (int, *ssa.Parameter) {
+		for i, prm := range fn.Params {
+			if m, ok := prm.Type().Underlying().(*types.Map); ok && isNamed(m.Key(), "go/types", "Named") {
+				return i, prm
+			}
+		}
+		return -1, nil
+	}
+	var names []string
+	for fn := range members {
+		names = append(names, ssaName(fn))
+	}
+	sort.Strings(names)
+	byName := map[string]*ssa.Function{}
+	for fn := range members {
+		byName[ssaName(fn)] = fn
+	}
+	for _, nm := range names {
+		fn := byName[nm]
+		_, own := setParam(fn)
+		if own == nil {
+			return ssaName(fn) + " is part of the cycle and has no visited-set parameter (it starts a fresh set)"
+		}
+		bad := ""
+		allInstrs(fn, false, func(in ssa.Instruction) {
+			c, ok := in.(ssa.CallInstruction)
+			if !ok || bad != "" {
+				return
+			}
+			callee := c.Common().StaticCallee()
+			if callee == nil || !members[callee] {
+				return
+			}
+			i, _ := setParam(callee)
+			if i < 0 || i >= len(c.Common().Args) {
+				return
+			}
+			if c.Common().Args[i] != ssa.Value(own) {
+				bad = ssaName(fn) + " calls " + ssaName(callee) + " with a visited set other than the one it received"
+			}
+		})
+		if bad != "" {
+			return bad
+		}
+	}
+	return ""
 }
 
 func ssaName(fn *ssa.Function) string {
